@@ -274,7 +274,7 @@ pub fn origin_form(u: &url::Url) -> Vec<u8> {
 
 pub fn generate(seed: u64, tier: &str, sink: &mut Sink) {
     // "each connection": also the connections made while following redirects (every body kind)
-    crate::p_c09::generate_chains(seed ^ 0xC07C, if tier == "thorough" { 3000 } else { 300 }, false, sink);
+    crate::p_c09::generate_chains(seed ^ 0xC07C, if tier == "thorough" { 3000 } else { 300 }, false, false, sink);
     let mut rng = Rng::new(seed ^ 0xC07);
     let n = if tier == "thorough" { 40_000 } else { 3000 };
     let methods = ["GET", "POST", "PUT", "DELETE", "HEAD", "OPTIONS", "PATCH", "TRACE", "FOO", "M-SEARCH"];
@@ -298,6 +298,7 @@ pub fn generate(seed: u64, tier: &str, sink: &mut Sink) {
             body,
             post: gen_steps(&mut rng, 2, true),
             hops: vec![(vec![Seg::Data(OK_RESPONSE.to_vec())], None)],
+            plain_tunnel: false,
         };
         let obs = run_send(&case);
         let tag = body_tag(&case.body);
